@@ -118,7 +118,7 @@ func c13GenCfg(r *Rng) c13Cfg {
 		c.Assets[1].Active = false
 	}
 	c.StartHeight = []int64{2, 10, 1000, 100_000}[r.Intn(4)]
-	c.UserFunds = 2_000_000
+	c.UserFunds = []int64{2_000_000, 2_000_000, 20_000, 500}[r.Intn(4)]
 	return c
 }
 
@@ -422,6 +422,8 @@ type c13Gen struct {
 	known map[string]c13Known // swap id -> secret the generator used
 	made  []string            // ids in creation order (successful or not)
 	socs  []string
+	okCreates map[string]c13Op // successful create per swap id (latest)
+	deleted   []c13Op          // creates whose swap has since been deleted from the store
 }
 
 func (g *c13Gen) secret() []byte {
@@ -461,10 +463,26 @@ func (g *c13Gen) amount(w *c13World, s *c13Snap, d int, incoming bool, sender in
 			avail := sp.Cur.Int64() - sp.Out.Int64()
 			x = avail + int64(r.Intn(3)-1)
 		}
+		if r.Chance(2, 3) {
+			if x > a.Max {
+				x = a.Max
+			}
+			if x < a.Min {
+				x = a.Min + int64(r.Intn(3))
+			}
+		}
 	case 3: // the fee boundary of outgoing swaps
 		x = a.Fee + a.Min + int64(r.Intn(3)-1)
 	case 4: // the sender's balance
 		x = s.bal[sender][d].Int64() + int64(r.Intn(3)-1)
+		if r.Chance(2, 3) {
+			if x > a.Max {
+				x = a.Max
+			}
+			if x < a.Min {
+				x = a.Min + int64(r.Intn(3))
+			}
+		}
 	default: // a fraction of what is left
 		room := a.Limit - sp.Cur.Int64() - sp.Inc.Int64()
 		if !incoming {
@@ -485,6 +503,9 @@ func (g *c13Gen) genCreate(w *c13World, s *c13Snap, cnt *Counters) c13Op {
 	r := g.r
 	op := c13Op{Kind: "create"}
 	d := r.Pick(3, 1)
+	if !w.cfg.Assets[d].Active && r.Chance(2, 3) {
+		d = 1 - d
+	}
 	a := w.cfg.Assets[d]
 	incoming := r.Chance(1, 2)
 	// outgoing swaps need current supply; prefer incoming when there is none
@@ -526,8 +547,13 @@ func (g *c13Gen) genCreate(w *c13World, s *c13Snap, cnt *Counters) c13Op {
 		sec = nil
 	}
 	op.Hash = hex.EncodeToString(hash)
-	// malformed stream
-	if r.Chance(14, 100) {
+	// the id of a swap that was closed and deleted long ago is free again
+	if len(g.deleted) > 0 && r.Chance(1, 3) {
+		old := g.deleted[r.Intn(len(g.deleted))]
+		op.Hash, op.Sender, op.Recip, op.Soc, op.Coins, op.Span = old.Hash, old.Sender, old.Recip, old.Soc, old.Coins, old.Span
+		op.Note = "reuse-deleted-id"
+		sec = nil
+	} else if r.Chance(14, 100) { // malformed stream
 		switch r.Intn(10) {
 		case 0: // neither party is the deputy
 			op.Sender, op.Recip = r.Intn(3), r.Intn(3)
@@ -997,6 +1023,9 @@ func c13OpMonitor(w *c13World, step int, op c13Op, cls Class, before, after *c13
 		if incoming {
 			wantDir = 1
 		}
+		if x.Dir == 1 && !incoming {
+			return "incoming-only-deputy", "non-deputy-created-incoming-swap", fmt.Sprintf("sender %d is not the deputy %d of %s", op.Sender, a.Deputy, c13Denoms[d])
+		}
 		if x.Status != 1 || x.Dir != wantDir || !bigEq(x.Amt, amt) || x.Denom != d || x.Sender != op.Sender || x.Recip != op.Recip ||
 			x.Hash != op.Hash || x.Ts != op.Ts || x.Closed != 0 || x.Cross != op.Cross || x.Expire != uint64(before.height)+op.Span {
 			return "create-record-matches-request", "created-swap-record-differs", fmt.Sprintf("%+v", *x)
@@ -1110,6 +1139,34 @@ func c13OpMonitor(w *c13World, step int, op c13Op, cls Class, before, after *c13
 			}
 			changed[id] = true
 		}
+	}
+	// the time-limited allowance within a period: the time-limited current supply grows by the
+	// incoming claims of a time-limited asset and is reset, together with the elapsed time, by the
+	// first block that completes the period (or at every block when the asset is not time-limited)
+	for i := 0; i < 2; i++ {
+		a := w.cfg.Assets[i]
+		wantTL := new(big.Int).Set(before.sup[i].TL)
+		wantEl := before.sup[i].Elapsed
+		switch op.Kind {
+		case "claim":
+			if x := before.swaps[op.ID]; x.Denom == i && x.Dir == 1 && a.TimeLimited {
+				wantTL.Add(wantTL, x.Amt)
+			}
+		case "block":
+			ne := before.sup[i].Elapsed + (op.TimeNs - before.prev)
+			if a.TimeLimited && ne < a.PeriodSec*1e9 {
+				wantEl = ne
+			} else {
+				wantEl = 0
+				wantTL.SetInt64(0)
+			}
+		}
+		if !bigEq(wantTL, after.sup[i].TL) || wantEl != after.sup[i].Elapsed {
+			return "time-limited-accounting", "time-limited-supply-accounting-wrong", fmt.Sprintf("%s %s: time-limited current supply %s (expected %s), elapsed %d (expected %d)", op.Kind, c13Denoms[i], after.sup[i].TL, wantTL, after.sup[i].Elapsed, wantEl)
+		}
+	}
+	if op.Kind == "block" && after.prev != op.TimeNs {
+		return "time-limited-accounting", "previous-block-time-not-recorded", fmt.Sprint(after.prev)
 	}
 	// nothing else in the swap table changed
 	for _, id := range before.ids {
@@ -1389,6 +1446,7 @@ var c13AllSplits = []string{
 	"create:incoming", "create:outgoing", "claim:incoming", "claim:outgoing", "refund:incoming", "refund:outgoing",
 	"block:expired>=1", "block:expired>=2", "block:deleted>=1", "block:tl-reset", "block:tl-accumulate",
 	"create:incoming:exactly-at-limit", "create:incoming:exactly-at-time-limit", "create:outgoing:exactly-available",
+	"create:outgoing:whole-balance", "err:insufficient-funds",
 	"err:supply-limit", "err:time-limit", "err:available-supply", "err:wrong-secret", "err:not-claimable", "err:not-refundable",
 	"err:swap-exists", "err:fee", "err:amount-range", "err:timestamp", "err:height-span", "err:swap-account",
 	"race:claim-refused-at-expiry-block", "race:refund-same-block-as-expiry", "race:claim-last-block-before-expiry",
@@ -1433,6 +1491,9 @@ func c13Splits(w *c13World, step int, op c13Op, cls Class, err error, before, af
 			mark("create:outgoing")
 			if after.sup[d].Cur.Cmp(after.sup[d].Out) == 0 {
 				mark("create:outgoing:exactly-available")
+			}
+			if after.bal[op.Sender][d].Sign() == 0 {
+				mark("create:outgoing:whole-balance")
 			}
 		}
 		_ = amt
@@ -1501,7 +1562,7 @@ func c13Run(seed uint64, idx, n int, cfg *c13Cfg, ops []c13Op, cnt *Counters) c1
 		c = c13GenCfg(r)
 	}
 	w := c13Setup(c)
-	g := &c13Gen{r: r, known: map[string]c13Known{}, socs: []string{"0xAbCd01", "0xabcd01", "bnb1deputy", "bnb1user"}}
+	g := &c13Gen{r: r, known: map[string]c13Known{}, okCreates: map[string]c13Op{}, socs: []string{"0xAbCd01", "0xabcd01", "bnb1deputy", "bnb1user"}}
 	in := c13NewIntern()
 	out := c13Out{cfg: c, splits: map[string]bool{}}
 	prev := w.snap()
@@ -1541,6 +1602,18 @@ func c13Run(seed uint64, idx, n int, cfg *c13Cfg, ops []c13Op, cnt *Counters) c1
 		}
 		if cls == ClassOk {
 			out.okOps++
+			switch op.Kind {
+			case "create":
+				g.okCreates[c13SwapID(op.Hash, w.addrs[op.Sender], op.Soc)] = op
+			case "block":
+				for _, id := range prev.ids {
+					if _, still := after.swaps[id]; !still {
+						if old, ok := g.okCreates[id]; ok {
+							g.deleted = append(g.deleted, old)
+						}
+					}
+				}
+			}
 		}
 		c13Splits(w, i, op, cls, err, prev, after, led, 0, expiredAtLastBlock, everDeleted, mark)
 		if op.Kind == "block" && cls == ClassOk {
